@@ -14,6 +14,7 @@ for p in "${props[@]}"; do
     git -C /repo apply "$PWD/$patch"
     out=$(./check $p --tier quick -noreplay -out /tmp/selftest_out ${SELFTEST_EXTRA:-} 2>&1); code=$?
     git -C /repo checkout -- . 
+    git -C /verif checkout -- evidence/$p.json 2>/dev/null   # a mutated run must not leave its evidence behind
     failed=$(echo "$out" | grep -c '^VIOLATION')
     case "$name" in
       neg_*) if [ $code -eq 0 ]; then echo "SELFTEST $p/$name: ok (negative control passes)"; else echo "SELFTEST $p/$name: FALSE ALARM (exit $code)"; echo "$out" | grep 'failed obligation' | head -5; rc=1; fi;;
